@@ -87,6 +87,13 @@ class MapFlavour:
         """a run of keys used by the ascending / descending sweeps (listed in ascending operator< order)"""
         return [str(100 + i) for i in range(24)] if self.kk == "i" else ["s%02d" % i for i in range(24)]
 
+    def absent_keys(self):
+        """keys that are never inserted (targets of work that must not change anything)"""
+        return [str(9000000 + i) for i in range(12)] if self.kk == "i" else ["absent%02d" % i for i in range(12)]
+
+    def fixed_arg(self):
+        return "7" if self.vk == "i" else "w"
+
     def sweep_op(self, rnd, k):
         v, a, K = qt(self.rand_val(rnd)), qt(self.rand_val(rnd)), qt(k)
         if self.multi:
@@ -105,7 +112,7 @@ class MapFlavour:
         return str(int(k) + 1000000) if self.kk == "i" else k + "~"
 
     def universe(self, base):
-        u = list(base) + self.sweep_keys()
+        u = list(base) + self.sweep_keys() + self.absent_keys()
         u += [self.dk(k) for k in base]
         u += [self.dk(self.dk(k)) for k in base]
         return u
@@ -229,7 +236,7 @@ class MapFlavour:
 
 # ---------------------------------------------------------------------------------------- scenario generation
 
-def gen_scenario(fl, rnd, ranks, nblocks, onerank, scale=1.0, clearrace=False):
+def gen_scenario(fl, rnd, ranks, nblocks, onerank, scale=1.0, clearrace=False, copyloop=False):
     """returns dict(lines=[...], blocks=[...]); a block = dict(ops=[(line, rank, c, op)], mut=…, obs=[(line, dir)], F={c: line})"""
     base = fl.base_keys(rnd)
     rnd.shuffle(base)
@@ -248,12 +255,52 @@ def gen_scenario(fl, rnd, ranks, nblocks, onerank, scale=1.0, clearrace=False):
     # two containers of the same type are alive on the communicator, operations interleaved between them, each judged against
     # its own model contents; in a third of the scenarios they get equal shares
     pc0 = rnd.choice([0.8, 0.8, 0.5])
+    # comm.stats_reset() is public API and must not influence anything: in 40 % of the scenarios some ranks call it at random
+    # points between their operations and right after barriers
+    use_sr = rnd.random() < 0.4
+
+    def maybe_sr(p):
+        if use_sr and rnd.random() < p:
+            add(f"sr {rnd.randrange(ranks)}")
 
     for b in range(nblocks):
         blk = {"ops": [], "mut": None, "obs": [], "F": {}, "classes": {}}
         kind = "ops"
         if b > 0 and rnd.random() < 0.22:
             kind = rnd.choice(fl.mut_kinds())
+        if fl.mode == "map" and b > 0 and not clearrace and (copyloop or kind == "copy"):
+            # copy construction: container 1 is destroyed and re-created as `C(container 0)`; the script goes on AT ONCE (no
+            # barrier) on the copy and on the original.  Before the copy one rank may do a lot of work that changes nothing
+            # (visit_if_exists of absent keys), so that ranks reach the copy constructor at different times.
+            blk["mut"], blk["mut_first"] = ["copy"], True
+            if rnd.random() < 0.7:
+                r0, ak = rnd.randrange(ranks), fl.absent_keys()
+                for j in range(rnd.randrange(15, 60)):
+                    o = ["vie", qt(ak[j % len(ak)]), "0", qt(fl.fixed_arg())]
+                    blk["ops"].append((add(f"o {r0} 0 " + " ".join(o)), r0, 0, o))
+            maybe_sr(0.3)
+            blk["mut_line"] = add("copy")
+            keys = list(base)
+            rnd.shuffle(keys)
+            pops = []
+            for k in keys[:rnd.randrange(3, len(keys) + 1)]:
+                for _ in range(rnd.randrange(1, 5)):
+                    pops.append((rnd.randrange(ranks), 1 if rnd.random() < 0.7 else 0, fl.rand_op(rnd, k)))
+            for k in fl.sweep_keys()[:rnd.randrange(1, 4)]:      # (mostly) absent keys visited on the copy: default value
+                pops.append((rnd.randrange(ranks), 1, ["vis", qt(k), "1", qt(fl.rand_val(rnd))]))
+            rnd.shuffle(pops)
+            for (r, c, o) in pops:
+                maybe_sr(0.05)
+                blk["ops"].append((add(f"o {r} {c} " + " ".join(o)), r, c, o))
+            add("B")
+            maybe_sr(0.3)
+            blk["F"][0] = add("forall 0")
+            blk["F"][1] = add("forall 1")
+            for d in fl.gen_obs(rnd, base, uni, ranks)[:3]:
+                blk["obs"].append((add(" ".join(d)), d))
+            add("B")
+            blocks.append(blk)
+            continue
         if clearrace and b > 0:
             # clear() called collectively and followed IMMEDIATELY (no barrier) by new operations: a rank that leaves
             # clear()'s barrier early issues them while a slower rank may still be inside that barrier
@@ -312,6 +359,7 @@ def gen_scenario(fl, rnd, ranks, nblocks, onerank, scale=1.0, clearrace=False):
                         ops.append((rnd.randrange(ranks), 0 if rnd.random() < pc0 else 1, fl.rand_op(rnd, k)))
                 rnd.shuffle(ops)
         for (r, c, o) in ops:
+            maybe_sr(0.04)
             li = add(f"o {r} {c} " + " ".join(o))
             blk["ops"].append((li, r, c, o))
         if kind != "ops":
@@ -319,6 +367,7 @@ def gen_scenario(fl, rnd, ranks, nblocks, onerank, scale=1.0, clearrace=False):
         # closing: optionally an explicit barrier, then mutation, observations, the two for_alls
         if rnd.random() < 0.5:
             add("B")
+            maybe_sr(0.5)
         if blk["mut"]:
             blk["mut_line"] = add(" ".join(blk["mut"]))
         obs = fl.gen_obs(rnd, base, uni, ranks)
@@ -356,7 +405,7 @@ def map_gen_obs(fl, rnd, base, uni, ranks):
 
 
 MapFlavour.gen_obs = map_gen_obs
-MapFlavour.mut_kinds = lambda self: ["swap", "clear"]
+MapFlavour.mut_kinds = lambda self: ["swap", "clear", "copy"]
 MapFlavour.mut_with_ops = lambda self: ["swap"]
 MapFlavour.make_mut = lambda self, rnd, kind: ["swap"] if kind == "swap" else ["clear", str(rnd.randrange(2))]
 
@@ -539,6 +588,13 @@ def analyse(fl, scn, outs, R, case, res, model_ok):
         if mut and mut[0] == "swap":
             Q = {0: F[1], 1: F[0]}
             dflt = {0: dflt[1], 1: dflt[0]}
+        elif mut and mut[0] == "copy":
+            # container 1 = copy of container 0: same contents, same default value (MapOps.copy_same_default); afterwards the
+            # two are independent (copy_independent) — the operations of this block are judged against that
+            A.tag = "map-copy "
+            cont = {0: cont[0], 1: {k: list(v) for k, v in cont[0].items()}}
+            dflt = {0: dflt[0], 1: dflt[0]}
+            d_ops = dict(dflt)
         elif mut and mut[0] == "clear" and blk.get("mut_first"):
             # clear(), then (without a barrier) the operations of this block: they belong to the new contents
             A.tag = ("map" if fl.mode == "map" else "set") + "-clear-race "
@@ -792,6 +848,20 @@ def clear_race_cases(flavours, tier, seed):
     return cases
 
 
+def copy_loop_cases(flavours, tier, seed):
+    """several copy constructions in a row, each followed at once by operations on the copy from some ranks while others lag
+    (rank-skewed work before the copy), mostly capacity 0, racer / late / burst"""
+    rnd = random.Random(seed * 15485863 + 3)
+    fls = [f for f in flavours if f.mode == "map"]
+    cases = []
+    for i in range((16 if tier == "quick" else 150) * len(fls)):
+        nodes, ppn = LAYOUTS[i % len(LAYOUTS)]
+        cases.append({"fl": fls[i % len(fls)], "nodes": nodes, "ppn": ppn, "routing": ROUTINGS[i % 3], "buffer": [0, 0, None][(i // 3) % 3],
+                      "policy": ["racer", "late", "burst"][(i // 2) % 3], "sim_seed": rnd.randrange(1, 1 << 30),
+                      "gen_seed": rnd.randrange(1 << 30), "blocks": 6, "eager": rnd.choice([0, 50, 100]), "copyloop": True})
+    return cases
+
+
 def make_cases(flavours, tier, seed):
     rnd = random.Random(seed * 7919 + 11)
     cases = []
@@ -837,7 +907,8 @@ def do_case(binary, case, model_ok, res_factory=C.Result):
     fl = case["fl"]
     R = case["nodes"] * case["ppn"]
     rnd = random.Random(case["gen_seed"])
-    scn = gen_scenario(fl, rnd, R, case["blocks"], R == 1, scale=case.get("scale", 1.0), clearrace=case.get("clearrace", False))
+    scn = gen_scenario(fl, rnd, R, case["blocks"], R == 1, scale=case.get("scale", 1.0), clearrace=case.get("clearrace", False),
+                       copyloop=case.get("copyloop", False))
     sr = run_case(binary, fl, case, scn["lines"])
     if sr.verdict == "wall-timeout" and _RETRIES[0] < 8:   # a loaded machine is not a violation: once more with a generous limit
         _RETRIES[0] += 1                                  # (bounded: a tree that really hangs must not stall the check)
@@ -889,7 +960,7 @@ def run_flavours(flavours, tier, seed, model_ok, rule, assumptions, race_env=Non
         return res
     if not model_ok:
         res.corr_failures.append({"relation": "model driver available", "what": "Lean library does not build", "case": None})
-    cases = make_cases(flavours, tier, seed)
+    cases = make_cases(flavours, tier, seed) + copy_loop_cases(flavours, tier, seed)
     if race_env and os.environ.get(race_env, "1") == "1":
         cases += clear_race_cases(flavours, tier, seed)
         res.notes.append("clear() followed immediately by operations without a barrier is included (defect D10/D11 repaired in /repo)")
@@ -913,6 +984,8 @@ def run_flavours(flavours, tier, seed, model_ok, rule, assumptions, race_env=Non
         res.count("operations", info["nops"])
         if case.get("clearrace"):
             res.count("cases: clear() then operations without barrier")
+        if case.get("copyloop"):
+            res.count("cases: loop of copy constructions, each used at once")
         if case.get("twocomm"):
             res.count(f"cases: two communicators in one process ({case['twocomm']['order']}, split {case['twocomm']['split']})")
         if info["skipped"]:
